@@ -11,7 +11,7 @@
    abstraction as BlobWrite.tla -- never read back from the implementation.
 
    TRACE_FILE: JSON array of [L, decl, ev |-> <<...>>]; every event carries obs = [verified, file, completed, closed, pending].
-     Open(w, ok, guarded)  Write(w, n, good, openb, pendb)  Step  Job  Close  Delete  SetLength(len)  Quiesce *)
+     Open(w, ok, guarded, same)  Write(w, n, good, openb, pendb)  Step  Job  Close  Delete  SetLength(len)  Quiesce *)
 EXTENDS Naturals, Sequences, FiniteSets, TLC, Json, IOUtils, TLCExt
 VARIABLES tid, l,
           decl, sofar, allgood, alive,      \* per writer: what it was fed while its handle was open and pending
@@ -19,8 +19,9 @@ VARIABLES tid, l,
           opened, guardedw,                 \* writers opened so far / opened the way the protocol callers do
           obs,                              \* the last observation of the real blob
           deletes, disturbed,               \* number of delete() calls; close()/delete() happened
-          stable                            \* verified was not cleared by anything but delete()
-tvars == <<tid, l, decl, sofar, allgood, alive, delivered, opened, guardedw, obs, deletes, disturbed, stable>>
+          stable,                           \* verified was not cleared by anything but delete()
+          superseded                        \* writers whose peer came back (same address and port) and got a new writer
+tvars == <<tid, l, decl, sofar, allgood, alive, delivered, opened, guardedw, obs, deletes, disturbed, stable, superseded>>
 TraceLog == JsonDeserialize(IOEnv.TRACE_FILE)
 T == TraceLog[tid]
 WMAX == 8
@@ -31,7 +32,7 @@ TInit == /\ tid \in 1..Len(TraceLog) /\ l = 1
          /\ sofar = [w \in Ws |-> 0] /\ allgood = [w \in Ws |-> TRUE] /\ alive = [w \in Ws |-> FALSE]
          /\ delivered = {} /\ opened = {} /\ guardedw = {}
          /\ obs = [verified |-> FALSE, file |-> "none", completed |-> 0, closed |-> <<>>, pending |-> <<>>]
-         /\ deletes = 0 /\ disturbed = FALSE /\ stable = TRUE
+         /\ deletes = 0 /\ disturbed = FALSE /\ stable = TRUE /\ superseded = {}
 
 E == T.ev[l]
 Consume(e) == l <= Len(T.ev) /\ T.ev[l].event = e /\ l' = l + 1 /\ tid' = tid
@@ -42,6 +43,8 @@ TrOpen == /\ Consume("Open") /\ Observe
           /\ IF E.ok THEN /\ opened' = opened \cup {E.w} /\ alive' = [alive EXCEPT ![E.w] = TRUE]
                           /\ guardedw' = IF E.guarded THEN guardedw \cup {E.w} ELSE guardedw
                      ELSE UNCHANGED <<opened, alive, guardedw>>
+          \* Open(w, same): the peer of writer `same` asks again under the same address and port and is writer w from now on
+          /\ superseded' = IF E.ok /\ E.same > 0 THEN superseded \cup {E.same} ELSE superseded
           /\ UNCHANGED <<decl, sofar, allgood, delivered, deletes, disturbed>>
 \* a write counts only if the handle was open and the future pending when it was made (otherwise the call raises / is ignored)
 TrWrite == /\ Consume("Write") /\ Observe
@@ -53,16 +56,16 @@ TrWrite == /\ Consume("Write") /\ Observe
                  ELSE /\ sofar' = [sofar EXCEPT ![w] = ns] /\ allgood' = [allgood EXCEPT ![w] = ag]
                       /\ alive' = [alive EXCEPT ![w] = ns < decl]
                       /\ delivered' = IF ns = decl /\ ag /\ ns = T.L THEN delivered \cup {w} ELSE delivered
-           /\ UNCHANGED <<decl, opened, guardedw, deletes, disturbed>>
+           /\ UNCHANGED <<decl, opened, guardedw, deletes, disturbed, superseded>>
 TrStep == /\ (Consume("Step") \/ Consume("Job") \/ Consume("Quiesce")) /\ Observe
-          /\ UNCHANGED <<decl, sofar, allgood, alive, delivered, opened, guardedw, deletes, disturbed>>
+          /\ UNCHANGED <<decl, sofar, allgood, alive, delivered, opened, guardedw, deletes, disturbed, superseded>>
 TrClose == /\ Consume("Close") /\ Observe /\ disturbed' = TRUE
-           /\ UNCHANGED <<decl, sofar, allgood, alive, delivered, opened, guardedw, deletes>>
+           /\ UNCHANGED <<decl, sofar, allgood, alive, delivered, opened, guardedw, deletes, superseded>>
 TrDelete == /\ Consume("Delete") /\ Observe /\ disturbed' = TRUE /\ deletes' = deletes + 1 /\ decl' = 0
-            /\ UNCHANGED <<sofar, allgood, alive, delivered, opened, guardedw>>
+            /\ UNCHANGED <<sofar, allgood, alive, delivered, opened, guardedw, superseded>>
 TrSetLength == /\ Consume("SetLength") /\ Observe
                /\ decl' = IF decl = 0 THEN E.len ELSE decl        \* set_length only takes effect while the length is unknown
-               /\ UNCHANGED <<sofar, allgood, alive, delivered, opened, guardedw, deletes, disturbed>>
+               /\ UNCHANGED <<sofar, allgood, alive, delivered, opened, guardedw, deletes, disturbed, superseded>>
 TNext == TrOpen \/ TrWrite \/ TrStep \/ TrClose \/ TrDelete \/ TrSetLength
 TSpec == TInit /\ [][TNext]_tvars
 
@@ -84,7 +87,7 @@ TComplete == (AtQuiesce /\ delivered # {} /\ ~disturbed) =>
 \* (it reached or exceeded the announced length), by a delivered correct copy, or by close()/delete()
 OwnEnd(w) == decl > 0 /\ sofar[w] >= decl
 TNoCollateral == \A w \in guardedw :
-                   (obs.closed[w] /\ ~obs.pending[w]) => (OwnEnd(w) \/ delivered # {} \/ disturbed)
+                   (obs.closed[w] /\ ~obs.pending[w]) => (OwnEnd(w) \/ delivered # {} \/ disturbed \/ w \in superseded)
 
 Reached == TLCSet(tid, IF TLCGetOrDefault(tid, 1) > l THEN TLCGetOrDefault(tid, 1) ELSE l)
 Report == TLCGet("stats").diameter >= 0 /\ \A t \in 1..Len(TraceLog) :
